@@ -4,7 +4,7 @@ From Coq Require Import List ZArith NArith Bool Lia.
 From Coq.Strings Require Import Byte.
 Import ListNotations.
 From Zap Require Import Base.Wire Enc.Bytes Enc.Utf8 Enc.Decimal Enc.Base64 Enc.Fields Enc.JsonEnc Enc.JsonParse Enc.JsonAst Enc.Wf
-  Enc.Refine1 Enc.Refine2 Enc.Refine3 Enc.Refine4 Enc.Refine5 Enc.Parse1 Enc.Parse2 Enc.Parse3.
+  Enc.Refine1 Enc.Refine2 Enc.Refine3 Enc.Refine4 Enc.Refine5 Enc.Parse1 Enc.Parse2 Enc.Parse3 Enc.Parse5.
 
 (* ---- what is assumed of the oracle texts, in context (Prop; the executable
    monitors wf_* check the stand-alone versions on every case) ---- *)
@@ -255,6 +255,70 @@ Proof.
 Qed.
 End S.
 
+(* ---- the executable monitors imply the in-context facts (Parse5: the parser is stable under
+   more fuel and under a delimited suffix) ---- *)
+Lemma start_okb_starts t : start_okb t = true -> starts_ok t.
+Proof.
+  unfold start_okb, starts_ok. destruct t as [|b r]; [discriminate|]. intros H. apply andb_true_iff in H as [H1 H2].
+  apply negb_true_iff in H1, H2. auto.
+Qed.
+Lemma wf_fv_pre f : wf_fv f = true -> fv_pre f.
+Proof.
+  unfold wf_fv, fv_pre. intros H. apply andb_true_iff in H as [Hp H]. split; [exact Hp|].
+  destruct (fcls f); try exact I. apply andb_true_iff in H as [H Hh]. apply andb_true_iff in H as [Ht Hn].
+  assert (Hhead : match ftxt f with b :: _ => is_digit b = true \/ b = x2d | [] => False end).
+  { unfold num_head_okb in Hh. destruct (ftxt f) as [|b r]; [discriminate|]. apply orb_true_iff in Hh as [Hh|Hh]; [now left|right; now apply byte_eqb_eq]. }
+  split; [exact (num_parses (ftxt f) Hn Hhead)|]. split.
+  - unfold starts_ok. destruct (ftxt f) as [|b r]; [exact Hhead|]. destruct Hhead as [Hd| ->]; [destruct b; try discriminate; split; reflexivity|split; reflexivity].
+  - cbn [atxt]. now apply plain_no_ctl.
+Qed.
+Lemma wf_rv_pre r : wf_rv r = true -> rv_pre r.
+Proof.
+  destruct r as [|t|m]; cbn [wf_rv rv_pre]; try (intros; exact I). unfold raw_okb. intros H.
+  apply andb_true_iff in H as [H Hp]. apply andb_true_iff in H as [H Hs]. apply andb_true_iff in H as [Ht Hc].
+  destruct (p_value (length t) t) as [[j r]|] eqn:E; [|discriminate]. destruct r; [|discriminate].
+  split; [|split; [now apply start_okb_starts|exact Hc]].
+  cbn [asize atxt asem]. rewrite E. now apply raw_parses.
+Qed.
+Lemma wf_rend_pre r : wf_rend r = true -> rend_pre r.
+Proof. destruct r; cbn [wf_rend rend_pre]; auto using wf_fv_pre. Qed.
+
+Lemma wf_owf : forall f, wf_fld f = true -> owf_fld f.
+Proof.
+  apply (fld_ind' (fun f => wf_fld f = true -> owf_fld f) (fun m => wf_objm m = true -> owf_objm m)
+                  (fun a => wf_arrm a = true -> owf_arrm a) (fun e => wf_elem e = true -> owf_elem e));
+    try (intros; exact I).
+  - intros k f H. now apply wf_fv_pre.
+  - intros k re im g H. cbn [wf_fld] in H. apply andb_true_iff in H as [H1 H2]. split; now apply wf_fv_pre.
+  - intros k d H. now apply wf_rend_pre.
+  - intros k t H. now apply wf_rend_pre.
+  - intros k r H. now apply wf_rv_pre.
+  - intros k m Hm H. now apply Hm.
+  - intros m Hm H. now apply Hm.
+  - intros k a Ha H. now apply Ha.
+  - intros cs r Hcs H. cbn [wf_objm owf_objm] in *. induction Hcs as [|f l Hf _ IH]; [exact I|].
+    apply andb_true_iff in H as [H1 H2]. split; [now apply Hf|now apply IH].
+  - intros es r st Hes H. cbn [wf_arrm owf_arrm] in *. induction Hes as [|e l He _ IH]; [exact I|].
+    apply andb_true_iff in H as [H1 H2]. split; [now apply He|now apply IH].
+  - intros f H. now apply wf_fv_pre.
+  - intros re im g H. cbn [wf_elem] in H. apply andb_true_iff in H as [H1 H2]. split; now apply wf_fv_pre.
+  - intros d H. now apply wf_rend_pre.
+  - intros t H. now apply wf_rend_pre.
+  - intros r H. now apply wf_rv_pre.
+  - intros m Hm H. now apply Hm.
+  - intros a Ha H. now apply Ha.
+Qed.
+Lemma wf_owf_flds fs : wf_flds fs = true -> owf_flds fs.
+Proof.
+  unfold wf_flds. induction fs as [|f r IH]; intros H; [exact I|]. cbn [forallb] in H. apply andb_true_iff in H as [H1 H2].
+  split; [now apply wf_owf|now apply IH].
+Qed.
+Lemma wf_owf_ctxs ctxs : forallb wf_flds ctxs = true -> owf_ctxs ctxs.
+Proof.
+  induction ctxs as [|fs r IH]; intros H; [exact I|]. cbn [forallb] in H. apply andb_true_iff in H as [H1 H2].
+  split; [now apply wf_owf_flds|now apply IH].
+Qed.
+
 (* ---- C01 + C02 for whole entries ---- *)
 Lemma split_suffix_app X le : split_suffix (X ++ le) (length le) = (X, le).
 Proof.
@@ -276,4 +340,16 @@ Proof.
   pose proof (entry_tree_pre c Hl ctxs ent fs Hoc Hof Hot) as Hp.
   unfold line_obj. rewrite split_suffix_app, bytes_eqb_refl, (tree_no_ctl false _ Hp). cbn [andb].
   rewrite (parse_printed false _ Hp). reflexivity.
+Qed.
+
+(* the same with the executable monitors as the only hypotheses *)
+Theorem entry_valid_wf c ctxs ent fs :
+  q_nil_caller_guard c = true -> q_layout_escaped c = true ->
+  forallb wf_flds ctxs = true -> wf_flds fs = true -> wf_entry ent = true ->
+  exists out,
+    encode_entry c false (with_chain c false ctxs) ent fs = Some out /\
+    line_obj (resolved_le c) out = Some (jv_mem (entry_members c ctxs ent fs)).
+Proof.
+  intros Hq Hl Hwc Hwf Hwe. apply entry_valid; auto using wf_owf_ctxs, wf_owf_flds.
+  unfold wf_entry, wf_tv in Hwe. now apply wf_rend_pre.
 Qed.
